@@ -3,7 +3,7 @@
 Contract embodied (DESIGN.md, trusted base): execute(file, cdb, dataout, datain) returns on GOOD,
 raises CheckConditionError(sense) on CHECK CONDITION and UnspecifiedError on every other outcome."""
 
-BACKEND = None      # callable(file, cdb, dataout, datain) -> (status:int, sense:bytes|None)
+BACKEND = None      # callable(file, cdb, dataout, datain) -> (status:int, sense:bytes|None[, residual:int])
 CALLS = []
 
 
@@ -25,9 +25,12 @@ def execute(file, cdb, dataout, datain, *args, **kwargs):
     CALLS.append((file, cdb, dataout, datain))
     if BACKEND is None:
         return None
-    status, sense = BACKEND(file, cdb, dataout, datain)
+    out = BACKEND(file, cdb, dataout, datain)
+    status, sense = out[0], out[1]
     if status == 0x00:
-        return None
+        # a three-element answer carries the SG_IO residual (bytes of the data-in buffer the device did not fill),
+        # which the binding hands back to its caller
+        return out[2] if len(out) > 2 else None
     if status == 0x02:
         raise CheckConditionError(sense)
     raise UnspecifiedError("status %#x" % status)
